@@ -254,6 +254,8 @@ class Env:
         self.last_text = {}              # task id -> text object of its last parse (when the next call re-uses it)
         self.shared_texts = {}           # value -> the one text object all clients pass for it
         self.instr = False               # instruction-level pre-emption points enabled in this run
+        self.active_compiles = 0         # Grammar() calls in progress (all clients, nested ones included)
+        self.built_sources = {}          # mod id -> source generated by a construction of this run (include_source)
 
     def count(self, k, n=1):
         self.counters[k] = self.counters.get(k, 0) + n
@@ -487,6 +489,9 @@ def _run_compile(env, ctx, op, path):
     if task is not None and not ctx.stack:
         ctx.hard = task.local + HARD_CAP
     ctx.stack.append(fr)
+    env.active_compiles += 1
+    if env.active_compiles > 1:
+        env.count('constructions_overlapping_in_time')
     try:
         m = compile_desc(op['desc'], watch=env.watch_new, include_source=bool(op.get('include_source')))
         out = {'compiled': sorted(n for n in vars(m) if not n.startswith('_'))}
@@ -499,6 +504,7 @@ def _run_compile(env, ctx, op, path):
         m, out = None, {'err': type(e).__name__, 'msg': fpm.norm_text(str(e))[:200]}
         env.count('ctor_fail')
     finally:
+        env.active_compiles -= 1
         ctx.stack.pop()
         if task is not None:
             task.deadline = saved_deadline
@@ -510,6 +516,8 @@ def _run_compile(env, ctx, op, path):
         env.count('name_reuse')
     chain = (parent.chain if parent is not None else ()) + (op['desc'],)
     env.handles[op['mod']] = Handle(op['mod'], m, chain, op.get('name'))
+    if m is not None and op.get('include_source'):
+        env.built_sources[op['mod']] = getattr(m, '_source_code', None)
     if m is not None and env.sim is not None:
         for c in generated_codes(m):
             env.sim.hot |= mon.hot_lines(c, vars(m))
@@ -684,6 +692,7 @@ def pristine_sources(chain):
 
 # ------------------------------------------------------------------------------- references
 
+_SRC_CACHE = {}       # chain -> list of pristine generated sources (for the construction-divergence lead)
 _CODE_CACHE = {}      # chain (tuple of descs) -> list of (name, code, doc) or ('fail', exc info)
 _CODE_CACHE_MAX = 64
 
@@ -722,6 +731,10 @@ def chain_codes(chain, fresh=False):
         out = srcs
     else:
         out = []
+        if not fresh:
+            if len(_SRC_CACHE) >= _CODE_CACHE_MAX:
+                _SRC_CACHE.pop(next(iter(_SRC_CACHE)))
+            _SRC_CACHE[key] = [src for _, src, _ in srcs]
         for name, src, doc in srcs:
             code = compile(src, '<%s>' % (name or 'grammar'), 'exec', optimize=2)
             seen, cs = set(), []
@@ -734,6 +747,15 @@ def chain_codes(chain, fresh=False):
         _CODE_CACHE.pop(next(iter(_CODE_CACHE)))
     _CODE_CACHE[key] = out
     return out
+
+
+def pristine_source(chain):
+    """The source a pristine process generates for the last description of the chain (None if unavailable)."""
+    key = tuple(chain)
+    if key not in _SRC_CACHE:
+        chain_codes(chain)
+    got = _SRC_CACHE.get(key)
+    return got[-1] if got else None
 
 
 def build_chain_fast(chain, fresh=False):
@@ -804,9 +826,16 @@ def reference_outcome(chain, op, definitive=False, on_hook=None, exec_now=False)
     return rec
 
 
-def reference_compile(parent_chain, op):
-    """Reference for a compile operation: the same Grammar() call with only its ancestors present."""
+def reference_compile(parent_chain, op, watch_library=False):
+    """Reference for a compile operation: the same Grammar() call with only its ancestors present.
+    watch_library: count the steps of sourcer's own code as a simulated run with constructions does."""
     env = Env('ref', allow_nest=False, watch_new=False)
+    if watch_library:
+        mon.watch(mon.library_codes())
+        try:
+            return reference_compile(parent_chain, op)
+        finally:
+            mon.unwatch(mon.library_codes())
     with isolated_registry():
         try:
             build_chain_fast(parent_chain) if parent_chain else None
